@@ -133,6 +133,34 @@ theorem export_order_independent (names : List N) (m m' : List (Nat × Option V)
   obtain ⟨s', h1, h2⟩ := decodeStep_perm names hp s hd
   exact ⟨s', h1, h2, sameMap_of_perm h2 hn⟩
 
+/-- The JSON export inverts as long as every logged value is one JSON can carry (`_partial`: logs
+holding a non-finite float are excluded, see `json_nonfinite_violates`). The CBOR export is
+`compress` itself (`compress_decompress`). -/
+theorem json_export_partial (finite : V → Bool) (log : Log N V) (h : ∀ s ∈ log, (s.map Prod.fst).Nodup)
+    (hf : ∀ s ∈ log, ∀ e ∈ s, ∀ v, e.2 = some v → finite v = true) :
+    decompress (exportJson finite log) = some log := by
+  unfold exportJson
+  rw [jsonLog_of_finite finite log hf]
+  exact compress_decompress log h
+
+/-- The full statement (every log) — it does NOT hold: `serde_json` writes a non-finite float as null. -/
+def json_export_full : Prop :=
+  ∀ (finite : Nat → Bool) (log : Log String Nat), (∀ s ∈ log, (s.map Prod.fst).Nodup) →
+    decompress (exportJson finite log) = some log
+
+/-- Counterexample (known finding): a logged value JSON cannot carry (here: 7 stands for +inf) comes
+back as `null`, i.e. as "source missing". -/
+theorem json_nonfinite_violates :
+    (decompress (exportJson (fun v : Nat => v != 7) [[("it", some 0), ("y", some 7)]])
+      == some [[("it", some 0), ("y", some 7)]]) = false := by decide
+
+theorem json_export_full_fails : ¬ json_export_full := by
+  intro h
+  have := h (fun v => v != 7) [[("it", some 0), ("y", some 7)]] (by decide)
+  have hv := json_nonfinite_violates
+  rw [this] at hv
+  simp at hv
+
 end Export
 
 section Config
